@@ -160,10 +160,12 @@ Proof.
   - (* Binary *)
     destruct (prec_of op) as [q|] eqn:Eq; [|discriminate].
     split_andb.
+    match goal with Ha : at_level (if _ then _ else _) e1 = true |- _ => rename Ha into Hraw end.
     assert (Hxl : at_level (L_BIN q) e1 = true).
     { destruct (q =? prec_cmp); [|assumption].
-      apply at_level_intro; [eapply at_level_isx; eassumption|].
-      pose proof (at_level_le _ _ ltac:(eassumption)). unfold L_BIN in *. lia. }
+      match goal with Ha : at_level _ e1 = true |- _ =>
+        apply at_level_intro; [eapply at_level_isx; exact Ha|];
+        pose proof (at_level_le _ _ Ha); unfold L_BIN in *; lia end. }
     destruct (sub e1 (ltac:(cbn [size]; lia)) ltac:(assumption) (at_level_isx _ _ Hxl))
       as (Hne & Hst & Hl & Hn).
     pose proof (at_level_le _ _ Hxl) as Hle. unfold L_BIN in Hle.
@@ -174,7 +176,7 @@ Proof.
     + unfold L_BIN. intros Hq. apply Hn. unfold L_BIN.
       assert (q <> 2). { destruct op; cbn in Eq; try discriminate; injection Eq; intros; lia. }
       destruct (q =? prec_cmp) eqn:Ec.
-      * pose proof (at_level_le _ _ ltac:(eassumption)). unfold L_BIN in *. lia.
+      * pose proof (at_level_le _ _ Hraw). apply Nat.eqb_eq in Ec. unfold L_BIN, prec_cmp in *. lia.
       * lia.
 Qed.
 
